@@ -23,6 +23,8 @@ OWNER_REF = dict(ku.OWNER_REF)
 OTHER_REF = {"apiVersion": "v1", "kind": "ConfigMap", "name": "someone-else", "uid": "uid-other",
              "blockOwnerDeletion": False, "controller": True}
 THIRD_REF = {"apiVersion": "apps/v1", "kind": "Deployment", "name": "third", "uid": "uid-third"}
+# an earlier incarnation of the parent: same apiVersion/kind/name, another uid (deleted with orphaning, re-created)
+STALE_PARENT_REF = {**OWNER_REF, "uid": "uid-parent-previous-incarnation"}
 
 
 def kind_for(prefix: str, namespaced: bool) -> tuple[str, str]:
@@ -48,7 +50,7 @@ def key_for(prefix: str, namespaced: bool, name=NAME, namespace=NS) -> tuple:
     return (API_VERSION, plural, namespace if namespaced else None, name)
 
 
-async def _reconcile(spec, objects, inputs, owner, templates, value_functions, cluster_ns):
+async def _reconcile(spec, objects, inputs, owner, templates, value_functions, cluster_ns, configure=None):
     from koreo.resource_function.reconcile import reconcile_resource_function
 
     ku.reset()
@@ -58,8 +60,12 @@ async def _reconcile(spec, objects, inputs, owner, templates, value_functions, c
         await ku.offer_value_function(name, copy.deepcopy(vspec))
     fn = await ku.offer_resource_function("rf", copy.deepcopy(spec))
     c = cl.Cluster(objects=copy.deepcopy(objects), namespace=cluster_ns)
+    c.log_lookups = True      # a kind-to-plural discovery is an API call too
+    if configure is not None:
+        configure(c)
     if not hasattr(fn, "crud_config"):
-        return {"prepared": False, "prepare": ku.outcome_obs(fn), "cluster": c, "raised": None, "outcome": None}
+        return {"prepared": False, "prepare": ku.outcome_obs(fn), "cluster": c, "raised": None, "outcome": None,
+                "resource_id": None}
     raised, res = None, None
     try:
         res = await reconcile_resource_function(
@@ -67,27 +73,30 @@ async def _reconcile(spec, objects, inputs, owner, templates, value_functions, c
     except Exception as e:  # an exception escaping reconcile is an observation, not a harness error
         raised = f"{type(e).__name__}: {e}"
     return {"prepared": True, "cluster": c, "raised": raised,
-            "outcome": None if res is None else res.outcome}
+            "outcome": None if res is None else res.outcome,
+            "resource_id": None if res is None else copy.deepcopy(res.resource_id)}
 
 
 def reconcile(spec, objects=None, inputs=None, owner=(NS, OWNER_REF), templates=None, value_functions=None,
-              cluster_ns="default") -> dict:
-    """one reconcile of a real prepared ResourceFunction against a fresh cluster holding `objects`"""
+              cluster_ns="default", configure=None) -> dict:
+    """one reconcile of a real prepared ResourceFunction against a fresh cluster holding `objects`;
+    `configure(cluster)` may install hooks (latency / competitor) before the run"""
     owner = (owner[0], copy.deepcopy(owner[1]))
-    return ku.run(_reconcile(spec, objects or {}, inputs or {}, owner, templates, value_functions, cluster_ns))
+    return ku.run(_reconcile(spec, objects or {}, inputs or {}, owner, templates, value_functions, cluster_ns,
+                             configure))
 
 
 def log_view(c) -> list[dict]:
     """the request log reduced to what the properties talk about"""
     return [{"method": e["method"], "plural": e["plural"], "name": e["name"], "nsArg": e["namespace_arg"],
-             "body": e["body"]} for e in c.log]
+             "body": e["body"], "version": e["version"]} for e in c.log if e["method"] != "LOOKUP"]
 
 
 def action_of(c) -> str:
     """noApiAtAll | none (reads only) | create | patch | delete | multiple:<methods>"""
     if not c.log:
         return "noApiAtAll"
-    muts = [e["method"] for e in c.log if e["method"] != "GET"]
+    muts = [e["method"] for e in c.log if e["method"] not in ("GET", "LOOKUP")]
     if not muts:
         return "none"
     if len(muts) == 1:
@@ -137,6 +146,16 @@ def directive_paths(v, path=()) -> list:
         for i, x in enumerate(v):
             out.extend(directive_paths(x, path + (i,)))
     return out
+
+
+def directive_in_nested_list(v, in_list=0) -> int:
+    """deepest run of lists directly inside lists above a directive-bearing map (0 = none)"""
+    if isinstance(v, dict):
+        here = in_list if (in_list >= 2 and any(k in DIRECTIVES for k in v)) else 0
+        return max([here] + [directive_in_nested_list(x, 0) for x in v.values()])
+    if isinstance(v, (list, tuple)):
+        return max([0] + [directive_in_nested_list(x, in_list + 1) for x in v])
+    return 0
 
 
 def strip_directives(v):
@@ -413,6 +432,8 @@ def dirty_value(r, depth=0, force_directive=False):
     if depth >= 3 or (roll < 0.3 and not force_directive):
         return r.choice(SCALARS)
     if roll < 0.5 and not force_directive:
+        if r.random() < 0.35:
+            return nested_lists(r, depth)
         return [dirty_value(r, depth + 1) for _ in range(r.choice((0, 1, 2, 3)))]
     keys = r.sample(WORDS, r.choice((1, 2, 2, 3)))
     out = {}
@@ -427,6 +448,23 @@ def dirty_value(r, depth=0, force_directive=False):
         out[DIRECTIVES[2]] = [r.choice(keys)]
     if r.random() < 0.3:   # keep insertion order varied: a directive first
         out = dict(sorted(out.items(), key=lambda kv: not kv[0].startswith("x-koreo")))
+    return out
+
+
+def nested_lists(r, depth=0):
+    """lists directly inside lists (1-3 levels of nesting) whose innermost items are directive-bearing
+    maps, mixed with scalars: a matrix / list-of-tuples shaped value"""
+    levels = r.choice((1, 1, 2, 3))
+
+    def level(n):
+        if n == 0:
+            return [dirty_value(r, 2, force_directive=True) if r.random() < 0.8 else r.choice(SCALARS)
+                    for _ in range(r.choice((1, 2)))]
+        return [level(n - 1) if r.random() < 0.85 else r.choice(SCALARS) for _ in range(r.choice((1, 2)))] or [level(n - 1)]
+
+    out = level(levels)
+    if not any(isinstance(x, list) for x in out):
+        out.append(level(levels - 1))
     return out
 
 
